@@ -2055,9 +2055,22 @@ fn leaves() {
         let value: f64 = format!("{}e{}", mantissa, exponent).parse().unwrap();
         numbers.push(DecimalNumber::new(value).with_exponent(exponent, false).into());
     }
+    // recorded exponents over the whole binary64 range (subnormals, the smallest and largest normal decades)
+    let mut wide: Vec<i64> = (-323i64..=308).step_by(7).collect();
+    wide.extend_from_slice(&[-324, -323, -322, -310, -308, -307, -300, -299, -293, -292, -291, -290, 290, 291, 292, 293, 300, 307, 308]);
+    for (k, exponent) in wide.into_iter().enumerate() {
+        for j in 0..3 {
+            let mantissa = mantissas[(k * 3 + j * 5) % mantissas.len()];
+            if let Ok(value) = format!("{}e{}", mantissa, exponent).parse::<f64>() {
+                if value.is_finite() {
+                    numbers.push(DecimalNumber::new(value).with_exponent(exponent, (k + j) % 2 == 0).into());
+                }
+            }
+        }
+    }
     // source literals: parsed by darklua, then written
     for source in [
-        "1.18e1", "1E+3", ".5e-3", "1_000e1_0", "1e22", "0.1e-5", "12.5E-10", "1.0e0", "5e-324", "1e308", "1.32E1", "8.1005e20",
+        "7.3e-300", "2.5e-310", "4.9e-324", "1.7976931348623157e308", "9.99e307", "1.18e1", "1E+3", ".5e-3", "1_000e1_0", "1e22", "0.1e-5", "12.5E-10", "1.0e0", "5e-324", "1e308", "1.32E1", "8.1005e20",
         "2.1003e+21", "1.193E22", "0x1F", "0b1_01", "1_0.2_5", "3.", "0e0", "123456789e-3",
     ] {
         if let Ok(number) = std::str::FromStr::from_str(source) {
